@@ -385,7 +385,8 @@ pub fn read_san(text: &str) -> Option<Desc> {
     // trailing check / mate marks
     if b.ends_with(b"++") {
         b = &b[..b.len() - 2];
-    } else if b.ends_with(b"+") || b.ends_with(b"#") {
+    } else if b.ends_with(b"+") || b.ends_with(b"#") || b.ends_with(b"x") {
+        // (a trailing `x` is an old-fashioned mate mark; owlchess reads it as such)
         b = &b[..b.len() - 1];
     }
     if b == b"O-O" || b == b"0-0" {
